@@ -20,6 +20,10 @@ def conditions(tier, seed):
                         timeout=t, bound='core corpus x action homes (shard %d/%d)' % (sh, ns),
                         case_split=['ci (program, home)'], realised=['program text'], twin=(sh == 0)))
     for sh in range(4):
+        out.append(Cond('wellformed_core_upper_s%d' % sh, 'c05_rt.py', dict(which='c06', corpus='core', style='upper', shard=sh, nshards=4), func='check_wellformed',
+                        timeout=t, bound='core corpus with UPPER-case keywords x action homes (shard %d/4): typing and structure do not depend on keyword case' % sh,
+                        case_split=['ci (program, home)'], realised=['program text'], twin=False))
+    for sh in range(4):
         out.append(Cond('wellformed_real_s%d' % sh, 'c05_rt.py', dict(which='c06', corpus='real', shard=sh, nshards=4), func='check_wellformed',
                         timeout=t, bound='the 26 real bodies of the fixture model (shard %d/4)' % sh,
                         case_split=['ci'], realised=['program text'], twin=(sh == 0)))
